@@ -208,3 +208,9 @@ mod tests {
         );
     }
 }
+
+/// Verification hook (add-only): exposes the private `generate_fvar` to /verif's harness.
+#[cfg(fontc_verif)]
+pub fn verif_generate_fvar(static_metadata: &StaticMetadata) -> Option<Fvar> {
+    generate_fvar(static_metadata)
+}
